@@ -64,4 +64,52 @@ theorem foldl_capPut (max : Nat) (h : 1 ≤ max) (rows : List α) :
   have := gen rows [] [] (by simp [capRows])
   simpa using this
 
+/-! ### the keyed `Put` (util/hmap `LinkedMap.put`, mode PUT_LAST, `max > 0`) -/
+
+/-- `Put key value`: a key already in the table has its value replaced IN PLACE (no eviction, position
+    kept); a new key first evicts from the front while `count >= max`, then is appended -/
+def putK [BEq κ] (max : Nat) (acc : List (κ × β)) (kv : κ × β) : List (κ × β) :=
+  if acc.any (fun e => e.1 == kv.1) then acc.map (fun e => if e.1 == kv.1 then (e.1, kv.2) else e)
+  else capPut max acc kv
+
+/-- **a wire table with pairwise distinct keys** (what a table writes) put row by row into a table
+    bounded by `max` leaves exactly its last `max` rows, in order -/
+theorem foldl_putK [BEq κ] [LawfulBEq κ] (max : Nat) (h : 1 ≤ max) (rows : List (κ × β))
+    (hd : (rows.map (·.1)).Nodup) : rows.foldl (putK max) [] = capRows max rows := by
+  have gen : ∀ (rs pre : List (κ × β)), ((pre ++ rs).map (·.1)).Nodup →
+      rs.foldl (putK max) (capRows max pre) = capRows max (pre ++ rs) := by
+    intro rs
+    induction rs with
+    | nil => intro pre _; simp
+    | cons r rs ih =>
+      intro pre hn
+      simp only [List.foldl_cons]
+      have hfresh : (capRows max pre).any (fun e => e.1 == r.1) = false := by
+        rw [Bool.eq_false_iff]
+        intro hany
+        obtain ⟨e, he, hk⟩ := List.any_eq_true.mp hany
+        obtain ⟨dropped, hpre⟩ := capRows_suffix max pre
+        have hmem : e ∈ pre := by rw [hpre]; exact List.mem_append_right _ he
+        have hk' : e.1 = r.1 := eq_of_beq hk
+        rw [List.map_append, List.nodup_append] at hn
+        have := hn.2.2 e.1 (List.mem_map_of_mem hmem) r.1 (by simp)
+        exact this hk'
+      have hput : putK max (capRows max pre) r = capRows max (pre ++ [r]) := by
+        simp only [putK, hfresh, Bool.false_eq_true, if_false, capPut]
+        rw [capRows_snoc max h, capRows_capRows (max - 1) max (by omega)]
+      rw [hput]
+      have := ih (pre ++ [r]) (by simpa using hn)
+      simpa using this
+  have := gen rows [] (by simpa using hd)
+  simpa [capRows] using this
+
+/-- a row whose key is already in the table changes that entry's value and nothing else: no row is
+    evicted, the size stays -/
+theorem putK_present_length [BEq κ] (max : Nat) (acc : List (κ × β)) (kv : κ × β)
+    (h : acc.any (fun e => e.1 == kv.1) = true) : (putK max acc kv).length = acc.length := by
+  simp [putK, h]
+
+example : [(1, 10), (2, 20), (3, 30), (4, 40)].foldl (putK 3) [] = [(2, 20), (3, 30), (4, 40)] := by decide
+example : [(1, 10), (2, 20), (1, 11), (3, 30)].foldl (putK 3) [] = [(1, 11), (2, 20), (3, 30)] := by decide
+
 end Packs
